@@ -64,9 +64,9 @@ class Event:
 
 
 class World:
-    def __init__(self, case, source_factory=None):
+    def __init__(self, case, source_factory=None, mat=None):
         self.case = case
-        self.mat = materialise(case["spec"])
+        self.mat = mat if mat is not None else materialise(case["spec"])
         self.info = SpecInfo(case["spec"], self.mat.classes)
         self.grammar = self.mat.grammar()
         self.random = (source_factory or RecordingSource)(case.get("seed", 0))
